@@ -114,11 +114,13 @@ SigParams(s) ==
                      PS("y", "positional or keyword", TRUE)>>
     [] s = "s2" -> <<PS("va", "variadic positional", FALSE), PS("k", "keyword-only", FALSE),
                      PS("kd", "keyword-only", TRUE), PS("kw", "variadic keyword", FALSE)>>
-FirstParam(inClass, deco) ==
-  IF ~inClass \/ deco = "static" THEN <<>>
-  ELSE IF deco = "class" THEN <<PS("cls", "positional or keyword", FALSE)>>
-  ELSE <<PS("self", "positional or keyword", FALSE)>>
-FullParams(inClass, deco, s) == FirstParam(inClass, deco) \o SigParams(s)
+\* the implicit first parameter; in shape s1 the `/` marker makes it positional-only as well
+FirstParam(inClass, deco, s) ==
+  LET k == IF s = "s1" THEN "positional-only" ELSE "positional or keyword"
+  IN IF ~inClass \/ deco = "static" THEN <<>>
+     ELSE IF deco = "class" THEN <<PS("cls", k, FALSE)>>
+     ELSE <<PS("self", k, FALSE)>>
+FullParams(inClass, deco, s) == FirstParam(inClass, deco, s) \o SigParams(s)
 Variadic(k) == k \in {"variadic positional", "variadic keyword"}
 
 PP(n, k, r) == [name |-> n, kind |-> k, req |-> r]
@@ -155,6 +157,10 @@ MainPath == IF main = "init" THEN <<"pkg">> ELSE <<"pkg", "sub">>
 MainId == IF main = "init" THEN PkgId ELSE SubId
 Scope == [i \in 1..Len(frames) |-> frames[i].name]      \* Visitor.current / Inspector.current as a relative path
 InClass == frames # <<>>
+\* ghost: which binding the lookup of name n finds right now: <<scope it lives in, index in prog of the binding statement>>
+RtBinder(n) ==
+  IF InClass /\ (IF InClass THEN n \in DOMAIN frames[Len(frames)].vars ELSE FALSE) THEN <<Scope, frames[Len(frames)].at[n]>>
+  ELSE <<<<>>, heap[MainId].at[n]>>
 
 Tok(t, n, deco, asy, sig, doc, val, what, as, base, inst) ==
   [t |-> t, n |-> n, deco |-> deco, async |-> asy, sig |-> sig, doc |-> doc, val |-> val, what |-> what,
@@ -163,27 +169,40 @@ Tok(t, n, deco, asy, sig, doc, val, what, as, base, inst) ==
 \* ------------------------------------------------------------------------------------------
 \* static tree (Griffe objects built by the visitor)
 \* ------------------------------------------------------------------------------------------
-SNode(kind, params, bname, batdef, doc, target, labels, origin, val, dshape) ==
-  [kind |-> kind, params |-> params, bname |-> bname, batdef |-> batdef, doc |-> doc, target |-> target,
-   labels |-> labels, origin |-> origin, val |-> val, dshape |-> dshape]
+\* (ghost fields, used only to classify differences: origin/val/dshape = the statement that created the node,
+\*  at = its index in prog, bscope/bat = which binding CPython used for the base name when the class statement ran)
+SNode(kind, params, bname, doc, target, labels, origin, val, dshape) ==
+  [kind |-> kind, params |-> params, bname |-> bname, bscope |-> <<>>, bat |-> 0, at |-> Len(prog) + 1, doc |-> doc,
+   target |-> target, labels |-> labels, origin |-> origin, val |-> val, dshape |-> dshape]
 
 \* SetMembersMixin.set_member with a one-part key: plain replacement (the old sub-tree goes away)
 SetMember(t, path, node) ==
   LET keep == {q \in DOMAIN t : ~IsPrefix(path, q)}
   IN [q \in keep \cup {path} |-> IF q = path THEN node ELSE t[q]]
 
-\* Object.resolve(name) from the object at relative path `scope` (<<>> = the main module), on tree t
-RECURSIVE ResolveIn(_, _, _)
+\* Object.resolve(name) from the object at relative path `scope` (<<>> = the main module), on tree t:
+\* FindMember = the node the walk stops at (<<>> = NameResolutionError), ResolveIn = the path it returns
+RECURSIVE FindMember(_, _, _)
+FindMember(t, scope, name) ==
+  IF (scope \o <<name>>) \in DOMAIN t THEN scope \o <<name>>               \* name in self.members
+  ELSE IF scope = <<>> THEN <<>>                                            \* up to the package root: not found
+  ELSE IF Len(scope) >= 2 /\ name = scope[Len(scope) - 1] THEN Front(scope)   \* name == self.parent.name (a class)
+  ELSE FindMember(t, Front(scope), name)
 ResolveIn(t, scope, name) ==
-  IF (scope \o <<name>>) \in DOMAIN t
-  THEN (IF t[scope \o <<name>>].kind = "alias" THEN t[scope \o <<name>>].target ELSE MainPath \o scope \o <<name>>)
-  ELSE IF scope = <<>> THEN <<name>>       \* up to the package root: NameResolutionError -> the bare name
-  ELSE IF Len(scope) >= 2 /\ name = scope[Len(scope) - 1] THEN MainPath \o Front(scope)   \* name == self.parent.name
-  ELSE ResolveIn(t, Front(scope), name)
+  LET q == FindMember(t, scope, name)
+  IN IF q = <<>> THEN <<name>>                                              \* ExprName.canonical_path: the bare name
+     ELSE IF t[q].kind = "alias" THEN t[q].target ELSE MainPath \o q
 
 \* the canonical path of every class's base expression, resolved lazily on the final tree (ExprName.canonical_path)
 LazyBase(t, p) == IF t[p].bname = "-" THEN <<>> ELSE <<ResolveIn(t, Front(p), t[p].bname)>>
-BasesStable(t) == \A p \in DOMAIN t : (t[p].kind = "class" /\ t[p].bname # "-") => LazyBase(t, p) = <<t[p].batdef>>
+\* ghost: does that lazy resolution stop at the very binding CPython used when the class statement ran?
+StaticBinder(t, p) ==
+  LET q == FindMember(t, Front(p), t[p].bname) IN IF q = <<>> THEN <<<<>>, 0>> ELSE <<Front(q), t[q].at>>
+Rebound(t, p) == t[p].kind = "class" /\ t[p].bname # "-" /\ StaticBinder(t, p) # <<t[p].bscope, t[p].bat>>
+Bvia(t, p) ==
+  IF t[p].kind # "class" \/ t[p].bname = "-" THEN "-"
+  ELSE LET q == FindMember(t, Front(p), t[p].bname) IN IF q = <<>> THEN "-" ELSE t[q].origin
+BasesStable(t) == \A p \in DOMAIN t : ~Rebound(t, p)
 
 DecoLabels(deco, asy) ==
   (CASE deco = "static" -> {"staticmethod"} [] deco = "class" -> {"classmethod"} [] deco = "prop" -> {"property"}
@@ -194,40 +213,45 @@ DecoLabels(deco, asy) ==
 VisitDef(t, k) ==
   LET labels == DecoLabels(k.deco, k.async)
       node == IF "property" \in labels
-              THEN SNode("attribute", <<>>, "-", <<>>, StaticDoc(k.doc), <<>>, labels, "def", "-", k.doc)
-              ELSE SNode("function", StaticParams(FullParams(InClass, k.deco, k.sig)), "-", <<>>, StaticDoc(k.doc),
+              THEN SNode("attribute", <<>>, "-", StaticDoc(k.doc), <<>>, labels, "def", "-", k.doc)
+              ELSE SNode("function", StaticParams(FullParams(InClass, k.deco, k.sig)), "-", StaticDoc(k.doc),
                          <<>>, labels, "def", "-", k.doc)
       t1 == SetMember(t, Scope \o <<k.n>>, node)
   IN IF k.inst
-     THEN SetMember(t1, Scope \o <<"q">>, SNode("attribute", <<>>, "-", <<>>, <<>>, <<>>, {"instance-attribute"}, "inst", "lit", "none"))
+     THEN SetMember(t1, Scope \o <<"q">>, SNode("attribute", <<>>, "-", <<>>, <<>>, {"instance-attribute"}, "inst", "lit", "none"))
      ELSE t1
 
 \* Visitor.visit_classdef: bases are expressions, kept by name; current := the class
 VisitClass(t, k) ==
   SetMember(t, Scope \o <<k.n>>,
-            SNode("class", <<>>, k.base, IF k.base = "-" THEN <<>> ELSE ResolveIn(t, Scope, k.base),
-                  StaticDoc(k.doc), <<>>, {}, "class", "-", k.doc))
+            [SNode("class", <<>>, k.base, StaticDoc(k.doc), <<>>, {}, "class", "-", k.doc)
+               EXCEPT !.bscope = IF k.base = "-" THEN <<>> ELSE RtBinder(k.base)[1],
+                      !.bat = IF k.base = "-" THEN 0 ELSE RtBinder(k.base)[2]])
 
 \* Visitor.handle_attribute (module / class scope): one Attribute per target name, whatever the statement
+\* (labels of an existing non-alias member of that name are merged into the new attribute's: labels |= existing.labels)
 VisitAttr(t, k) ==
-  SetMember(t, Scope \o <<k.n>>, SNode("attribute", <<>>, "-", <<>>, <<>>, <<>>, {}, k.t, k.val, "none"))
+  LET p == Scope \o <<k.n>>
+      old == IF p \in DOMAIN t THEN (IF t[p].kind # "alias" THEN t[p].labels ELSE {}) ELSE {}
+  IN SetMember(t, p, SNode("attribute", <<>>, "-", <<>>, <<>>, old, k.t, k.val, "none"))
 
 \* Visitor.visit_importfrom
 VisitFrom(t, k) ==
   LET name == IF k.as = "-" THEN FromName(k.what) ELSE k.as
   IN IF k.what = "other" /\ k.as = "-" /\ main = "init"
      THEN t          \* `from . import other` in an __init__ module: skipped (whatever the current scope is)
-     ELSE SetMember(t, Scope \o <<name>>, SNode("alias", <<>>, "-", <<>>, <<>>, FromTarget(k.what), {}, "from", "-", "none"))
+     ELSE SetMember(t, Scope \o <<name>>, SNode("alias", <<>>, "-", <<>>, FromTarget(k.what), {}, "from", "-", "none"))
 
 \* Visitor.visit_import for `import pkg.other`: alias_path = alias_name = "pkg"
 VisitImport(t) ==
-  SetMember(t, Scope \o <<"pkg">>, SNode("alias", <<>>, "-", <<>>, <<>>, <<"pkg">>, {}, "import", "-", "none"))
+  SetMember(t, Scope \o <<"pkg">>, SNode("alias", <<>>, "-", <<>>, <<"pkg">>, {}, "import", "-", "none"))
 
 \* ------------------------------------------------------------------------------------------
 \* runtime object graph (CPython)
 \* ------------------------------------------------------------------------------------------
+\* (at: ghost, for namespaces: name -> index in prog of the statement that made the current binding)
 Obj(ty, wr, mod, qn, doc, bases, sig, vs) ==
-  [type |-> ty, wrap |-> wr, mod |-> mod, qn |-> qn, doc |-> doc, bases |-> bases, sig |-> sig, vars |-> vs]
+  [type |-> ty, wrap |-> wr, mod |-> mod, qn |-> qn, doc |-> doc, bases |-> bases, sig |-> sig, vars |-> vs, at |-> <<>>]
 Value(ty) == Obj(ty, "none", <<>>, <<>>, <<>>, <<>>, <<>>, <<>>)
 ModuleObj(path, vs) == Obj("module", "none", path, <<>>, <<>>, <<>>, <<>>, vs)
 
@@ -250,10 +274,10 @@ RtLookup(n) ==
   ELSE IF n \in DOMAIN heap[MainId].vars THEN heap[MainId].vars[n] ELSE 0
 
 \* bind a name in the running body; h is the heap to update (objects may have been allocated first)
-BindIn(h, fr, n, i) ==
+BindIn(h, fr, n, i, idx) ==
   IF fr # <<>>
-  THEN <<h, [fr EXCEPT ![Len(fr)].vars = Bind(@, n, i)]>>
-  ELSE <<[h EXCEPT ![MainId].vars = Bind(@, n, i)], fr>>
+  THEN <<h, [fr EXCEPT ![Len(fr)].vars = Bind(@, n, i), ![Len(fr)].at = Bind(@, n, idx)]>>
+  ELSE <<[h EXCEPT ![MainId].vars = Bind(@, n, i), ![MainId].at = Bind(@, n, idx)], fr>>
 \* importing pkg.other (whoever does it) makes `other` an attribute of the package module
 WithSubmoduleAttr(h) == [h EXCEPT ![PkgId].vars = Bind(@, "other", OtherId)]
 Alloc(h, o) == [i \in 1..(Len(h) + 1) |-> IF i <= Len(h) THEN h[i] ELSE o]
@@ -261,8 +285,11 @@ Alloc(h, o) == [i \in 1..(Len(h) + 1) |-> IF i <= Len(h) THEN h[i] ELSE o]
 \* ------------------------------------------------------------------------------------------
 \* statements
 \* ------------------------------------------------------------------------------------------
+\* Replay of one stored program: a module extending this one overrides ForcedProg (cfg: ForcedProg <- ...)
+ForcedProg == <<>>
+Allowed(k) == ForcedProg = <<>> \/ (IF Len(prog) < Len(ForcedProg) THEN ForcedProg[Len(prog) + 1] = k ELSE FALSE)
 Budget == pc = "build" /\ nst < MaxStmts
-Push(k) == /\ prog' = Append(prog, k) /\ nst' = nst + 1
+Push(k) == /\ Allowed(k) /\ prog' = Append(prog, k) /\ nst' = nst + 1
 Same == UNCHANGED <<main, mdoc, pc, dy, skS, skD, diffs, xdump>>
 RebindOk(t) == AllowRebind \/ BasesStable(t)
 
@@ -277,7 +304,7 @@ StmtDef ==
        /\ LET k == Tok("def", n, deco, asy, sig, doc, "-", "-", "-", "-", inst)
               o == Obj(IF asy THEN "coroutine" ELSE "function", deco, MainPath, Scope \o <<n>>, DocLines(doc), <<>>,
                        FullParams(InClass, deco, sig), <<>>)
-              b == BindIn(Alloc(heap, o), frames, n, nid)
+              b == BindIn(Alloc(heap, o), frames, n, nid, Len(prog) + 1)
           IN /\ RebindOk(VisitDef(st, k))
              /\ st' = VisitDef(st, k) /\ heap' = b[1] /\ frames' = b[2] /\ nid' = nid + 1 /\ Push(k)
   /\ Same
@@ -290,7 +317,7 @@ StmtClass ==
        /\ LET k == Tok("class", n, "-", FALSE, "-", doc, "-", "-", "-", base, FALSE)
           IN /\ st' = VisitClass(st, k)
              /\ frames' = Append(frames, [name |-> n, base |-> IF base = "-" THEN 0 ELSE RtLookup(base), doc |-> doc,
-                                          vars |-> [x \in {"__module__"} |-> LitId]])
+                                          vars |-> [x \in {"__module__"} |-> LitId], at |-> <<>>, hdr |-> Len(prog) + 1])
              /\ Push(k)
   /\ UNCHANGED <<heap, nid>> /\ Same
 
@@ -299,10 +326,11 @@ StmtEnd ==
   /\ pc = "build" /\ InClass
   /\ LET f == Last(frames)
          o == Obj("class", "none", MainPath, Scope, DocLines(f.doc), IF f.base = 0 THEN <<>> ELSE <<f.base>>, <<>>, f.vars)
-         b == BindIn(Alloc(heap, o), Front(frames), f.name, nid)
+         b == BindIn(Alloc(heap, o), Front(frames), f.name, nid, f.hdr)
          t1 == st
      IN /\ RebindOk(t1)
         /\ heap' = b[1] /\ frames' = b[2] /\ nid' = nid + 1
+        /\ Allowed(Tok("end", "-", "-", FALSE, "-", "-", "-", "-", "-", "-", FALSE))
         /\ prog' = Append(prog, Tok("end", "-", "-", FALSE, "-", "-", "-", "-", "-", "-", FALSE))
   /\ UNCHANGED <<st, nst>> /\ Same
 
@@ -310,7 +338,7 @@ StmtAssign ==
   /\ Budget
   /\ \E ty \in {"assign", "ann"} \cap Stmts, n \in Names, v \in Vals :
        LET k == Tok(ty, n, "-", FALSE, "-", "-", v, "-", "-", "-", FALSE)
-           b == BindIn(heap, frames, n, IF v = "none" THEN NoneId ELSE LitId)
+           b == BindIn(heap, frames, n, IF v = "none" THEN NoneId ELSE LitId, Len(prog) + 1)
        IN /\ RebindOk(VisitAttr(st, k))
           /\ st' = VisitAttr(st, k) /\ heap' = b[1] /\ frames' = b[2] /\ Push(k)
   /\ UNCHANGED nid /\ Same
@@ -329,7 +357,7 @@ StmtFrom ==
        LET k == Tok("from", "-", "-", FALSE, "-", "-", "-", w, as, "-", FALSE)
            name == IF as = "-" THEN FromName(w) ELSE as
            h1 == IF w \in {"OK", "og", "ov", "other"} THEN WithSubmoduleAttr(heap) ELSE heap
-           b == BindIn(h1, frames, name, FromId(w))
+           b == BindIn(h1, frames, name, FromId(w), Len(prog) + 1)
        IN /\ RebindOk(VisitFrom(st, k))
           /\ st' = VisitFrom(st, k) /\ heap' = b[1] /\ frames' = b[2] /\ Push(k)
   /\ UNCHANGED nid /\ Same
@@ -337,7 +365,7 @@ StmtFrom ==
 StmtImport ==
   /\ Budget /\ "import" \in Stmts
   /\ LET k == Tok("import", "-", "-", FALSE, "-", "-", "-", "-", "-", "-", FALSE)
-         b == BindIn(WithSubmoduleAttr(heap), frames, "pkg", PkgId)
+         b == BindIn(WithSubmoduleAttr(heap), frames, "pkg", PkgId, Len(prog) + 1)
      IN /\ st' = VisitImport(st) /\ heap' = b[1] /\ frames' = b[2] /\ Push(k)
   /\ UNCHANGED nid /\ Same
 
@@ -346,8 +374,8 @@ StmtRef ==
   /\ Budget /\ "ref" \in Stmts
   /\ \E n \in Names, src \in Names \cup {"OK", "og"} :
        /\ n # src /\ RtLookup(src) # 0
-       /\ LET k == Tok("ref", n, "-", FALSE, "-", "-", "-", src, "-", "-", FALSE)
-              b == BindIn(heap, frames, n, RtLookup(src))
+       /\ LET k == Tok("ref", n, "-", FALSE, "-", "-", IF RtLookup(src) = NoneId THEN "none" ELSE "-", src, "-", "-", FALSE)
+              b == BindIn(heap, frames, n, RtLookup(src), Len(prog) + 1)
           IN /\ RebindOk(VisitAttr(st, k))
              /\ st' = VisitAttr(st, k) /\ heap' = b[1] /\ frames' = b[2] /\ Push(k)
   /\ UNCHANGED nid /\ Same
@@ -466,7 +494,7 @@ SkelOf(kind, params, bases, doc, target, labels) ==
           ELSE SK("alias", <<>>, <<>>, <<>>, target, FinalKind(target)))
     [] kind = "function" -> SK("function", params, <<>>, doc, <<>>, "-")
     [] kind = "class" -> SK("class", <<>>, bases, doc, <<>>, "-")
-    [] OTHER -> SK("attribute", <<>>, <<>>, IF "property" \in labels THEN doc ELSE <<>>, <<>>, "-")   \* attribute docstrings: exempt
+    [] OTHER -> SK("attribute", <<>>, <<>>, <<>>, <<>>, "-")   \* attribute docstrings (properties are attributes): exempt
 
 Exempt(p) == Last(p) \in InterpDunders
 SkelStatic(t) ==
@@ -500,13 +528,17 @@ Cause(t, d, p, clause) ==
   IN IF o = "annonly" /\ clause \in {"members", "kind"} THEN "annonly"
      ELSE IF o = "ref" /\ clause = "kind" THEN "ref"
      ELSE IF clause = "members" /\ o \in {"assign", "ann"} /\ ~hasD /\ main = "sub" /\ t[p].val = "none" THEN "none-in-submodule"
-     ELSE IF clause = "members" /\ o = "ref" /\ ~hasD /\ main = "sub" THEN "none-in-submodule"
+     ELSE IF clause = "members" /\ o = "ref" /\ ~hasD /\ main = "sub" /\ t[p].val = "none" THEN "none-in-submodule"
      ELSE IF clause = "members" /\ o = "import" /\ ~hasD /\ main = "init" THEN "import-self"
      ELSE IF clause = "members" /\ ~hasS /\ hasD /\ main = "init" /\ Len(p) >= 2 /\ Last(p) = "other" THEN "from-dot-in-class"
      ELSE IF clause = "params" /\ hasS /\ "classmethod" \in t[p].labels THEN "classmethod-cls"
      ELSE IF clause = "required" THEN "variadic-required"
      ELSE IF clause = "doc" /\ (IF p = <<>> THEN mdoc ELSE t[p].dshape) = "deep" THEN "double-cleandoc"
-     ELSE IF clause = "bases" /\ hasS /\ LazyBase(t, p) # <<t[p].batdef>> THEN "base-rebound"
+     ELSE IF clause = "bases" /\ hasS /\ Bvia(t, p) = "annonly" THEN "annonly"
+     ELSE IF clause = "bases" /\ hasS /\ Rebound(t, p) THEN "base-rebound"
+     ELSE IF clause = "bases" /\ hasS /\ Bvia(t, p) = "ref" THEN "ref"
+     ELSE IF clause = "bases" /\ hasS /\ hasD /\ LazyBase(t, p) = <<[i \in 1..Len(d[p].bases[1]) |-> Lstrip(d[p].bases[1][i])]>>
+          THEN "base-builtin-module"
      ELSE "none"
 
 DiffsOf(t, d, a, b) ==
@@ -524,7 +556,7 @@ DumpScope(o, rel, fuel) ==
          : n \in (DOMAIN heap[o].vars) \ InterpDunders}
 
 Finish ==
-  /\ pc = "build" /\ ~InClass
+  /\ pc = "build" /\ ~InClass /\ (ForcedProg = <<>> \/ prog = ForcedProg)
   /\ LET d == InspectMain
          a == SkelStatic(st)
          b == SkelDynamic(d)
@@ -562,15 +594,19 @@ NoDoubleCleandoc == Done => \A x \in diffs : x.cause # "double-cleandoc"
 NoBaseRebound == Done => \A x \in diffs : x.cause # "base-rebound"
 NoRef == Done => \A x \in diffs : x.cause # "ref"
 NoFromDotInClass == Done => \A x \in diffs : x.cause # "from-dot-in-class"
+NoBaseBuiltinModule == Done => \A x \in diffs : x.cause # "base-builtin-module"
 \* functions: the static signature is CPython's own (the dynamic one is checked against it through skS = skD)
 TreeSeq(t) == {[path |-> p, node |-> t[p]] : p \in DOMAIN t}
-StaticMeta == {[path |-> p, origin |-> st[p].origin, val |-> st[p].val, dshape |-> st[p].dshape, labels |-> st[p].labels,
-                rebound |-> (st[p].kind = "class" /\ st[p].bname # "-" /\ LazyBase(st, p) # <<st[p].batdef>>)] : p \in DOMAIN st}
-DynMeta == {[path |-> p, labels |-> dy[p].labels] : p \in DOMAIN dy}
+StaticMeta == {[path |-> p, origin |-> st[p].origin, val |-> st[p].val, dshape |-> st[p].dshape, labels |-> st[p].labels, bvia |-> Bvia(st, p),
+                rebound |-> Rebound(st, p)] : p \in DOMAIN st}
+DynMeta == {[path |-> p, labels |-> dy[p].labels] : p \in {q \in DOMAIN dy : dy[q].labels # {}}}
+\* the dynamic skeleton is printed as its difference from the static one (most entries are equal)
+SkDelta == {[path |-> p, node |-> skD[p]] : p \in {q \in DOMAIN skD : IF q \in DOMAIN skS THEN skS[q] # skD[q] ELSE TRUE}}
+SkMissing == (DOMAIN skS) \ (DOMAIN skD)
 
 EmitCase ==
   (Emit /\ Done) =>
-     PrintT(<<"CASE", ToJson([main |-> main, mdoc |-> mdoc, prog |-> prog, skS |-> TreeSeq(skS), skD |-> TreeSeq(skD),
+     PrintT(<<"CASE", ToJson([main |-> main, mdoc |-> mdoc, prog |-> prog, skS |-> TreeSeq(skS), skDd |-> SkDelta, skDm |-> SkMissing,
                               diffs |-> diffs, xdump |-> xdump, smeta |-> StaticMeta, dmeta |-> DynMeta])>>)
 
 \* the docstring table (validated against the real inspect.cleandoc by the driver)
